@@ -1,7 +1,445 @@
-//! C19 — not implemented yet.
+//! C19 — rescoring only affects the rescore window.
+//! Engine: inputmc rescore — C09 worlds x 4 initial queries x 5 rescore queries (term, phrase,
+//! two function_score with min_score, non-matching) x window_size 0..limit+5 x 5 score modes x
+//! limit in {2,3,n}. The expected response is computed from the complete un-rescored ranking and the
+//! rescore query's own scores (separate exhaustive searches).
+
+use std::collections::{BTreeMap, BTreeSet, HashSet};
+use std::sync::atomic::{AtomicBool, AtomicU64, Ordering};
+
+use parking_lot::Mutex;
+use serde_json::{json, Value};
+
+use searchlite_core::api::IndexReader;
+use vcore::ev::Reporter;
+use vcore::inp::*;
+use vcore::world::*;
+
+use crate::c09::{self, FailLog, WorldInfo, TOL};
 use crate::Ctx;
 
-pub fn run(_ctx: &Ctx) -> i32 {
-  eprintln!("C19: check not implemented");
-  2
+pub const SIG_H19: &str = "C19-resort-window-not-shrunk-after-min-score-rejects";
+
+const MODES: [&str; 5] = ["total", "multiply", "sum", "max", "min"];
+
+fn initial_queries() -> Vec<Value> {
+  vec![
+    json!("a"),
+    json!("a b c"),
+    json!({"type": "match_all"}),
+    json!({"type": "bool", "must": [{"type": "term", "field": "body", "value": "a"}], "should": [{"type": "term", "field": "body", "value": "b"}]}),
+  ]
+}
+
+/// (rescore query, the same query without its min_score — None when it has none)
+fn rescore_queries() -> Vec<(Value, Option<Value>)> {
+  let fs = |weight: f64, min: Option<f64>| {
+    let mut q = json!({"type": "function_score", "query": {"type": "query_string", "query": "b"}, "boost_mode": "multiply",
+      "functions": [{"type": "weight", "weight": weight}]});
+    if let Some(m) = min {
+      q["min_score"] = json!(m);
+    }
+    q
+  };
+  vec![
+    (json!({"type": "term", "field": "body", "value": "b"}), None),
+    (json!({"type": "phrase", "field": "body", "terms": ["a", "b"]}), None),
+    // survivors score >= 1.5: combined scores can only grow (except mode min)
+    (fs(2.0, Some(1.5)), Some(fs(2.0, None))),
+    // survivors score in [0.45, ~0.8]: `multiply` and `min` lower the score of a rescored hit
+    (fs(0.5, Some(0.45)), Some(fs(0.5, None))),
+    (json!({"type": "term", "field": "body", "value": "zzz"}), None),
+  ]
+}
+
+fn combine(mode: &str, orig: f32, resc: f32) -> f32 {
+  match mode {
+    "total" | "sum" => orig + resc,
+    "multiply" => orig * resc,
+    "max" => orig.max(resc),
+    _ => orig.min(resc),
+  }
+}
+
+type Hits = Vec<(String, f32)>;
+
+fn ranked(reader: &IndexReader, r: Value) -> Result<Hits, String> {
+  search_caught(reader, &req(r)).map(|res| id_scores(&res))
+}
+
+/// Everything about one (world, initial query, rescore query) that does not depend on
+/// window / mode / limit.
+struct Base {
+  full: Hits,                     // complete un-rescored ranking
+  own: BTreeMap<String, f32>,     // the rescore query's own score per matching document
+  rejects: BTreeSet<String>,      // match the rescore query's inner query but fall below its min_score
+}
+
+fn base(reader: &IndexReader, init: &Value, resc: &(Value, Option<Value>)) -> Result<Base, String> {
+  let full = ranked(reader, json!({"query": init, "limit": 100, "execution": "bm25"}))?;
+  let own: BTreeMap<String, f32> = ranked(reader, json!({"query": resc.0, "limit": 100, "execution": "bm25"}))?.into_iter().collect();
+  let mut rejects = BTreeSet::new();
+  if let Some(nomin) = &resc.1 {
+    for (id, _) in ranked(reader, json!({"query": nomin, "limit": 100, "execution": "bm25"}))? {
+      if !own.contains_key(&id) {
+        rejects.insert(id);
+      }
+    }
+  }
+  Ok(Base { full, own, rejects })
+}
+
+fn pos_key(info: &WorldInfo, id: &str) -> (usize, usize) {
+  info.locate(id).unwrap_or((usize::MAX, usize::MAX))
+}
+
+fn sort_window(info: &WorldInfo, w: &mut [(String, f32)]) {
+  w.sort_by(|a, b| b.1.total_cmp(&a.1).then_with(|| pos_key(info, &a.0).cmp(&pos_key(info, &b.0))));
+}
+
+/// The documented outcome on the candidate list `cand`: the first min(window, |cand|) hits minus
+/// min_score rejects are rescored (documents the rescore query does not match keep their score) and
+/// sorted by the new score (ties: segment, ordinal); everything after stays as it was.
+fn expected(info: &WorldInfo, b: &Base, cand: &[(String, f32)], window: usize, mode: &str) -> (Hits, usize) {
+  let w = window.min(cand.len());
+  let mut head: Hits = Vec::new();
+  let mut rejected = 0;
+  for (id, sc) in &cand[..w] {
+    if b.rejects.contains(id) {
+      rejected += 1;
+      continue;
+    }
+    let ns = match b.own.get(id) {
+      Some(r) => combine(mode, *sc, *r),
+      None => *sc,
+    };
+    head.push((id.clone(), ns));
+  }
+  sort_window(info, &mut head);
+  head.extend(cand[w..].iter().cloned());
+  (head, rejected)
+}
+
+/// What the H19 defect produces: after removing the rejects the engine sorts the first
+/// min(window, remaining) hits of the *shrunk* list, pulling hits from behind the window into it.
+fn h19_model(info: &WorldInfo, b: &Base, cand: &[(String, f32)], window: usize, mode: &str, limit: usize) -> Hits {
+  let w = window.min(cand.len());
+  let mut list: Hits = Vec::new();
+  for (i, (id, sc)) in cand.iter().enumerate() {
+    if i < w {
+      if b.rejects.contains(id) {
+        continue;
+      }
+      let ns = match b.own.get(id) {
+        Some(r) => combine(mode, *sc, *r),
+        None => *sc,
+      };
+      list.push((id.clone(), ns));
+    } else {
+      list.push((id.clone(), *sc));
+    }
+  }
+  let sw = window.min(list.len());
+  sort_window(info, &mut list[..sw]);
+  list.truncate(limit);
+  list
+}
+
+/// `got` must be `want[..got.len()]`: ids in order and scores within TOL; hits whose scores are
+/// within TOL of each other may swap (near-tie class), bit-identical scores may not.
+fn prefix_matches(got: &[(String, f32)], want: &[(String, f32)]) -> Result<(), String> {
+  if got.len() > want.len() {
+    return Err(format!("{} hits returned, at most {} expected", got.len(), want.len()));
+  }
+  let mut seen = HashSet::new();
+  for (i, (id, sc)) in got.iter().enumerate() {
+    if !seen.insert(id) {
+      return Err(format!("{id} returned twice"));
+    }
+    let (wid, wsc) = &want[i];
+    if !approx(*sc, *wsc, TOL) {
+      return Err(format!("rank {} holds {id} with score {sc}, expected {wid} with score {wsc}", i + 1));
+    }
+    if id != wid {
+      // near-tie permutation: the same document must be expected with (nearly) this score, and the
+      // two scores must not be bit-identical (exact ties have a fixed order)
+      match want.iter().find(|w| &w.0 == id) {
+        Some(w) if approx(w.1, *sc, TOL) && w.1.to_bits() != wsc.to_bits() => {}
+        _ => return Err(format!("rank {} holds {id} (score {sc}), expected {wid} (score {wsc})", i + 1)),
+      }
+    }
+  }
+  Ok(())
+}
+
+#[derive(Clone)]
+struct Case<'a> {
+  init: &'a Value,
+  resc: &'a (Value, Option<Value>),
+  window: usize,
+  mode: &'a str,
+  limit: usize,
+}
+
+impl Case<'_> {
+  fn to_json(&self, world: &World) -> Value {
+    json!({"engine": "inputmc-rescore", "world": world.to_json(), "query": self.init, "rescore_query": self.resc.0, "rescore_query_without_min_score": self.resc.1,
+      "window_size": self.window, "score_mode": self.mode, "limit": self.limit})
+  }
+}
+
+enum Outcome {
+  Held { rescored_in_window: usize, rejected: usize, reordered: bool, refill_skipped_a_hit: bool },
+  NotJudged,
+  Fail(Option<&'static str>, String),
+}
+
+fn check_case(reader: &IndexReader, info: &WorldInfo, b: &Base, c: &Case) -> Outcome {
+  let got = match ranked(reader, json!({"query": c.init, "limit": c.limit, "execution": "bm25",
+    "rescore": {"window_size": c.window, "query": c.resc.0, "score_mode": c.mode}}))
+  {
+    Ok(g) => g,
+    Err(e) => return Outcome::Fail(None, format!("rescored search failed: {e}")),
+  };
+  // The engine rescans a candidate pool of limit+1 hits. Whether hits ranked below the pool take
+  // part in a window that reaches beyond it is not documented: judged only when the window lies
+  // inside the page or the page holds every match.
+  if !(c.window <= c.limit || b.full.len() <= c.limit) {
+    return Outcome::NotJudged;
+  }
+  let (want, rejected) = expected(info, b, &b.full, c.window, c.mode);
+  let w = c.window.min(b.full.len());
+  let head_len = w - rejected; // rescored window, sorted
+  let verdict = (|| -> Result<bool, String> {
+    // (1) the head of the response is the rescored, re-sorted window
+    let k = head_len.min(got.len());
+    prefix_matches(&got[..k], &want[..head_len])?;
+    if got.len() < head_len.min(c.limit) {
+      return Err(format!("{} hits returned but the rescored window alone holds {}", got.len(), head_len));
+    }
+    // (2) whatever follows are hits from behind the window: original scores, original relative order
+    let tail = &got[k..];
+    let behind = &b.full[w..];
+    let mut pos = 0usize;
+    let mut contiguous = true;
+    for (id, sc) in tail {
+      match behind[pos..].iter().position(|h| &h.0 == id) {
+        Some(off) => {
+          if off != 0 {
+            contiguous = false;
+          }
+          let h = &behind[pos + off];
+          if !approx(h.1, *sc, TOL) {
+            return Err(format!("{id} lies behind the window but its score changed from {} to {sc}", h.1));
+          }
+          pos += off + 1;
+        }
+        None => {
+          return Err(format!(
+            "{id} (score {sc}) follows the rescored window in the response, but it is not one of the hits behind the window in their original order {:?}",
+            behind
+          ))
+        }
+      }
+    }
+    // (3) page length: rejects may or may not be refilled from behind the candidate pool
+    let max_len = c.limit.min(want.len());
+    let min_len = max_len.saturating_sub(rejected);
+    if got.len() < min_len || got.len() > max_len {
+      return Err(format!("{} hits returned, expected between {min_len} and {max_len}", got.len()));
+    }
+    Ok(contiguous)
+  })();
+  match verdict {
+    Ok(contiguous) => {
+      let rescored = b.full[..w].iter().filter(|h| b.own.contains_key(&h.0) && !b.rejects.contains(&h.0)).count();
+      let orig_order: Vec<&String> = b.full[..w].iter().filter(|h| !b.rejects.contains(&h.0)).map(|h| &h.0).collect();
+      let new_order: Vec<&String> = want[..orig_order.len()].iter().map(|h| &h.0).collect();
+      let reordered = orig_order != new_order;
+      Outcome::Held { rescored_in_window: rescored, rejected, reordered, refill_skipped_a_hit: !contiguous }
+    }
+    Err(why) => {
+      // H19 classifier: at least one hit of the window was rejected, and the response is exactly
+      // what sorting the first min(window, remaining) hits of the *shrunk* list produces. The list
+      // the engine works on is the union of every segment's top limit+1 hits.
+      let mut per_seg: BTreeMap<usize, usize> = BTreeMap::new();
+      let pool: Hits = b
+        .full
+        .iter()
+        .filter(|h| {
+          let seg = pos_key(info, &h.0).0;
+          let n = per_seg.entry(seg).or_insert(0);
+          *n += 1;
+          *n <= c.limit + 1
+        })
+        .cloned()
+        .collect();
+      let model = h19_model(info, b, &pool, c.window, c.mode, c.limit);
+      let sig = if rejected >= 1 && model.len() == got.len() && model.iter().zip(&got).all(|(m, g)| m.0 == g.0 && approx(m.1, g.1, TOL)) {
+        Some(SIG_H19)
+      } else {
+        None
+      };
+      Outcome::Fail(
+        sig,
+        format!(
+          "un-rescored ranking {:?}; rescore query scores {:?}; rejected by its min_score {:?}; response {:?}; expected (window = first {w} hits) {:?}: {why}",
+          b.full,
+          b.own,
+          b.rejects,
+          got,
+          &want[..want.len().min(c.limit)]
+        ),
+      )
+    }
+  }
+}
+
+pub fn run(ctx: &Ctx) -> i32 {
+  let mut rep = Reporter::new("C19", ctx.tier, "exploration");
+  let quick = ctx.tier.is_quick();
+  if let Some(path) = &ctx.replay {
+    rep.set_replaying(true);
+    let v: Value = serde_json::from_slice(&std::fs::read(path).expect("replay file")).expect("json");
+    let cs = &v["case"];
+    let world = World::from_json(&cs["world"]);
+    let resc = (cs["rescore_query"].clone(), if cs["rescore_query_without_min_score"].is_null() { None } else { Some(cs["rescore_query_without_min_score"].clone()) });
+    let mode = cs["score_mode"].as_str().unwrap_or("total").to_string();
+    let c = Case { init: &cs["query"], resc: &resc, window: cs["window_size"].as_u64().unwrap_or(0) as usize, mode: &mode, limit: cs["limit"].as_u64().unwrap_or(2) as usize };
+    let run1 = || {
+      let idx = world.build();
+      let reader = idx.reader().expect("reader");
+      let info = WorldInfo::new(&world);
+      let b = match base(&reader, c.init, c.resc) {
+        Ok(b) => b,
+        Err(e) => return Some(format!("reference searches failed: {e}")),
+      };
+      match check_case(&reader, &info, &b, &c) {
+        Outcome::Fail(sig, what) => Some(format!("[{}] {}", sig.unwrap_or("-"), what)),
+        _ => None,
+      }
+    };
+    let (a, b) = (run1(), run1());
+    if a.is_some() != b.is_some() {
+      vcore::ev::machinery_failure("NONDETERMINISM on replay");
+    }
+    return match a {
+      Some(w) => {
+        println!("VIOLATION property=C19 replay={path}\n  what: {w}");
+        1
+      }
+      None => {
+        println!("replay: no violation");
+        0
+      }
+    };
+  }
+
+  let ws = if quick { c09::worlds(3, &[], false) } else { c09::worlds(5, &[6], false) };
+  let inits = initial_queries();
+  let rescs = rescore_queries();
+  let deadline = c09::budget(if quick { 30.0 } else { 840.0 });
+  let log = FailLog::new();
+  let evals = AtomicU64::new(0);
+  let nontrivial = AtomicU64::new(0);
+  let not_judged = AtomicU64::new(0);
+  let with_rejects = AtomicU64::new(0);
+  let refill_skips = AtomicU64::new(0);
+  let worlds_done = AtomicU64::new(0);
+  let timed_out = AtomicBool::new(false);
+  let outcomes: Mutex<BTreeSet<String>> = Mutex::new(BTreeSet::new());
+  let (done, capped) = c09::par_sweep(&ws, &rep, deadline, |wi, world| {
+    let idx = world.build();
+    let reader = idx.reader().expect("reader");
+    let info = WorldInfo::new(world);
+    let n = world.docs.len();
+    let mut limits: Vec<usize> = vec![2, 3, n];
+    limits.sort();
+    limits.dedup();
+    let mut local: BTreeSet<String> = BTreeSet::new();
+    for (ii, init) in inits.iter().enumerate() {
+      for (ri, resc) in rescs.iter().enumerate() {
+        let b = match base(&reader, init, resc) {
+          Ok(b) => b,
+          Err(e) => {
+            log.add(None, vec![wi as u64, ii as u64, ri as u64], || format!("{} q={} rescore={}: reference searches failed: {e}", world.describe(), init, resc.0), || json!({"engine": "inputmc-rescore", "world": world.to_json(), "query": init, "rescore_query": resc.0}));
+            continue;
+          }
+        };
+        for (li, &limit) in limits.iter().enumerate() {
+          for window in 0..=limit + 5 {
+            for (mi, mode) in MODES.iter().enumerate() {
+              let c = Case { init, resc, window, mode, limit };
+              evals.fetch_add(1, Ordering::Relaxed);
+              match check_case(&reader, &info, &b, &c) {
+                Outcome::NotJudged => {
+                  not_judged.fetch_add(1, Ordering::Relaxed);
+                  local.insert("not-judged (window reaches beyond the candidate pool)".into());
+                }
+                Outcome::Held { rescored_in_window, rejected, reordered, refill_skipped_a_hit } => {
+                  if refill_skipped_a_hit {
+                    refill_skips.fetch_add(1, Ordering::Relaxed);
+                    local.insert("held, but the page was refilled skipping a higher-ranked hit (per-segment candidate pools)".into());
+                  }
+                  if rescored_in_window >= 1 || rejected >= 1 {
+                    nontrivial.fetch_add(1, Ordering::Relaxed);
+                    if !rep.sample_full() && reordered && rejected >= 1 {
+                      rep.sample(json!({"world": world.describe(), "query": init, "rescore_query": resc.0, "window_size": window, "score_mode": mode, "limit": limit, "rescored_in_window": rescored_in_window, "rejected": rejected}));
+                    }
+                  }
+                  if rejected >= 1 {
+                    with_rejects.fetch_add(1, Ordering::Relaxed);
+                  }
+                  local.insert(format!("held: rescored{} rejected{} {}", rescored_in_window.min(2), rejected.min(2), if reordered { "reordered" } else { "order-kept" }));
+                }
+                Outcome::Fail(sig, what) => {
+                  local.insert(format!("violation[{}]", sig.unwrap_or("-")));
+                  log.add(sig, vec![wi as u64, ii as u64, ri as u64, li as u64, window as u64, mi as u64], || format!("{} q={} rescore={{window_size:{}, score_mode:{}, query:{}}} limit={}: {}", world.describe(), init, window, mode, resc.0, limit, what), || c.to_json(world));
+                }
+              }
+            }
+          }
+        }
+      }
+    }
+    outcomes.lock().extend(local);
+  });
+  worlds_done.store(done, Ordering::Relaxed);
+  timed_out.store(capped, Ordering::Relaxed);
+  log.flush(&rep);
+  rep.add_evals(evals.load(Ordering::Relaxed));
+  let to = timed_out.load(Ordering::Relaxed);
+  let outs = outcomes.lock().clone();
+  if outs.len() < 2 {
+    vcore::ev::machinery_failure("C19: fewer than two distinct outcomes observed (vacuous)");
+  }
+  let cov = vcore::cov! {
+    "distinct_nontrivial" => nontrivial.load(Ordering::Relaxed),
+    "rule" => "a judged (world, initial query, rescore query, window, mode, limit) case is non-trivial when at least one hit of the window is matched by the rescore query (its score must change by the mode formula) or rejected by its min_score",
+    "worlds" => ws.len(),
+    "worlds_completed" => worlds_done.load(Ordering::Relaxed),
+    "initial_queries" => inits,
+    "rescore_queries" => rescs.iter().map(|r| r.0.clone()).collect::<Vec<_>>(),
+    "windows" => "0..=limit+5",
+    "score_modes" => MODES.to_vec(),
+    "limits" => "{2, 3, n}",
+    "cases_with_min_score_rejects_in_window" => with_rejects.load(Ordering::Relaxed),
+    "cases_not_judged" => not_judged.load(Ordering::Relaxed),
+    "observed_not_judged_refill_after_rejects_skips_a_higher_ranked_hit" => refill_skips.load(Ordering::Relaxed),
+    "distinct_observed_outcomes" => outs.len(),
+    "observed_outcomes" => outs.iter().cloned().collect::<Vec<_>>(),
+    "failure_classes" => log.classes().iter().map(|(s, n)| json!({"signature": s, "cases": n})).collect::<Vec<_>>(),
+    "cap_hit" => if to { Some(format!("wall budget {deadline}s")) } else { None },
+    "exhaustive" => !to,
+  };
+  rep.finish(
+    cov,
+    vec![
+      "the initial ranking is the complete un-rescored bm25 response; the rescore query's score of a document is its score in a separate exhaustive search for that query (a phrase scores 1.0 there)".into(),
+      "a case is judged only when window_size <= limit or every match fits into the page: the engine rescans a candidate pool of limit+1 hits and the documentation (candidate_size) does not say whether lower-ranked hits take part in a larger window".into(),
+      "after min_score rejects the page may be shorter than limit by up to the number of rejects, and the hits that refill it only have to be hits from behind the window in their original relative order with their original scores (the statement says no more); refills that skip a higher-ranked hit are counted, not failed".into(),
+      "hits with scores within 1e-5 relative may swap; bit-identical scores must follow (segment, ordinal)".into(),
+      "default sort, execution bm25, no deletions".into(),
+    ],
+  )
 }
